@@ -326,3 +326,25 @@ def all_head_assignments(spec):
             for i, c in enumerate(n['c']):
                 c['h'] = (i == k)
         yield s
+
+
+def comb_tree(rng, blocks=10, pools=None, sid=1):
+    """A tree with a constituent of `blocks` (>= 10) token blocks: the teeth
+    of a comb hang under one node X, the tokens between them under the root
+    (two-digit fan-outs: X10, vertical contexts X10, RCG arity suffix 10)."""
+    pools = pools or Pools()
+    n = 2 * blocks - 1 + rng.choice([0, 1, 2])
+    teeth = []
+    rest = []
+    for i in range(1, n + 1):
+        t = pools.token(rng, i)
+        t['n'] = i
+        if i % 2 == 1 and len(teeth) < blocks:
+            teeth.append(t)
+        else:
+            rest.append(t)
+    x = {'l': pick(rng, pools.cats), 'e': 'OC', 'c': teeth}
+    if rng.random() < 0.5:
+        x = {'l': pick(rng, pools.cats), 'e': 'HD', 'c': [x]}
+    return {'sid': sid, 'root': {'l': pools.root_label, 'e': '--',
+                                 'c': [x] + rest}}
